@@ -32,6 +32,9 @@ for n in names:
     meta["revalidated_at"] = head
     meta["confirmed"].update(base_commit=head, applies=True, test_suite=res.get("tests"),
                              demo_rc_unchanged=res.get("demo_clean_rc"), demo_rc_mutated=res.get("demo_mutant_rc"))
+    if os.path.exists(d + "/demo.py"):
+        # a later fix can make an old seeded change harmless (its demonstration no longer fails): say so
+        meta["confirmed"]["valid"] = bool(res.get("tests_pass") and res.get("demo_clean_rc") == 0 and res.get("demo_mutant_rc") not in (0, None))
     meta["detection"] = {p: dict(exit=v["rc"], lines=v["lines"][:3], first_replay=v["first_replay"]) for p, v in res.get("checks", {}).items()}
     meta["detected_by"] = [p for p, v in res.get("checks", {}).items() if v["rc"] == 1]
     json.dump(meta, open(d + "/meta.json", "w"), indent=1)
